@@ -150,10 +150,22 @@ class Property(cssutils.util.Base):
                 )
 
             if wellformed:
-                self.wellformed = True
-                self.name = nametokens
-                self.propertyValue = valuetokens
-                self.priority = prioritytokens
+                # parse into a temporary first: a rejected value or priority
+                # must not leave this property with the new name (and value)
+                new = Property(_mediaQuery=self._mediaQuery, parent=self.parent)
+                new.wellformed = True
+                new.name = nametokens
+                new.propertyValue = valuetokens
+                new.priority = prioritytokens
+
+                self.wellformed = new.wellformed
+                self.__nametoken = new.__nametoken
+                self._name = new._name
+                self._literalname = new._literalname
+                self._priority = new._priority
+                self._literalpriority = new._literalpriority
+                self.seqs = new.seqs
+                self.seqs[1].parent = self
 
                 # also invalid values are set!
 
@@ -363,13 +375,15 @@ class Property(cssutils.util.Base):
             self._log.info('Property: Invalid priority: %s' % self._valuestr(priority))
 
         if wellformed:
+            # validate priority (before it is set: the error may be raised)
+            newpriority = self._normalize(new['literalpriority'])
+            if newpriority not in ('', 'important'):
+                self._log.error('Property: No CSS priority value: %s' % newpriority)
+
             self.wellformed = self.wellformed and wellformed
             self._literalpriority = new['literalpriority']
-            self._priority = self._normalize(self.literalpriority)
+            self._priority = newpriority
             self.seqs[2] = newseq
-            # validate priority
-            if self._priority not in ('', 'important'):
-                self._log.error('Property: No CSS priority value: %s' % self._priority)
 
     literalpriority = property(
         lambda self: self._literalpriority,
